@@ -246,6 +246,7 @@ pub fn run_history(r: &mut Rng, nops: usize, profile: u64) -> History {
     let mut n_points = 0; let mut n_peeks = 0; let mut differing_sets = false; let mut sketch_nondense_seen = false;
     let mut uri_counter = 0u32;
     let mut doc_ids: BTreeSet<u64> = BTreeSet::new();
+    let mut chunked_docs: BTreeSet<u64> = BTreeSet::new();
     let mut steer: Option<Steer> = if profile >= 3000 { Some(Steer::new((profile - 3000) / 100, (profile - 3000) % 100)) } else { None };
     let nops = if steer.is_some() { 90 } else { nops };
     let mut last_round = false;
@@ -276,7 +277,11 @@ pub fn run_history(r: &mut Rng, nops: usize, profile: u64) -> History {
             Op::Put { payload, embed: r.chance(2, 5), instant, default_opts: profile == 2 && r.chance(1, 2), uri, deco: (r.below(8) as u8) & if r.chance(1, 2) { 7 } else { 0 } }
         } else if c < 58 && n_committed > 0 {
             let target = pick(r);
-            Op::Update { target, payload: if r.chance(1, 2) { Some(r.range(40, 300) as usize) } else { None }, embed: r.chance(1, 4), instant: profile == 2 && r.chance(1, 2) }
+            // a payload-less update of a CHUNKED document re-extracts the reused text and re-chunks it (a new parent plus new
+            // chunk frames from one call); Model/Store.v's OUpdate is one insert record, so such updates carry a new payload here
+            let mut payload = if r.chance(1, 2) { Some(r.range(40, 300) as usize) } else { None };
+            if payload.is_none() && chunked_docs.contains(&target) { payload = Some(r.range(40, 300) as usize); tags.insert("update-of-chunked-with-payload".into()); }
+            Op::Update { target, payload, embed: r.chance(1, 4), instant: profile == 2 && r.chance(1, 2) }
         } else if c < 70 && n_committed > 0 { Op::Delete { target: pick(r) } }
         else if c < 84 { Op::Commit } else if c < 93 { Op::Reopen } else { Op::Crash };
         if dbg { eprintln!("op {} {:?}", i, op); }
@@ -307,6 +312,7 @@ pub fn run_history(r: &mut Rng, nops: usize, profile: u64) -> History {
                     for _ in 0..nch { frames_ref.push((k, true)); bits_known.push(None); }
                     if is_text { words_used.push(k); pending_texts.push((id, String::from_utf8_lossy(&bytes).to_string())); }
                     slots.push((ops_t.len(), id, 1 + nch, true));
+                    if nch > 0 { chunked_docs.insert(id); }
                     match payload { Payload::Chunked(_) => { tags.insert("chunked-put".into()); } Payload::Blank(_) => { tags.insert("blank-put".into()); } Payload::Bin(_) => { tags.insert("binary-put".into()); } _ => {} }
                     if *embed { tags.insert("embedded-put".into()); }
                     if *instant { tags.insert("instant-index".into()); }
